@@ -263,6 +263,9 @@ def SuccDone (s : St U π) (nt : UNT U) (F : Sym) (args : List Prog) (j : Nat) (
   (∃ q, AList.lookup (some aj) (s.succOf sj) = some q ∧ Tree.node F (args.set j q) ∈ s.seenOf nt) ∨
   (s.initS.contains sj = true ∧ s.heapOf sj = [] ∧ AList.lookup (some aj) (s.succOf sj) = none)
 
+/-- `p` was pushed for `nt` and taken out of its heap (popped, or skipped as a rejected program) -/
+def Proc (s : St U π) (nt : UNT U) (p : Prog) : Prop := p ∈ s.seenOf nt ∧ p ∉ s.heapProgs nt
+
 /-- **completeness invariant of an initialised non-terminal** (no threshold, no filter); `e`, `i`: the
     program whose successors are being added and the positions (`< i`) still to be treated -/
 structure CInv (E : Env U π) (rank : UNT U → Nat) (s : St U π) (nt : UNT U) (e : Option Prog) (i : Nat) : Prop where
@@ -271,10 +274,10 @@ structure CInv (E : Env U π) (rank : UNT U → Nat) (s : St U π) (nt : UNT U) 
   initial : ∀ F v w, (v, w) ∈ altsOf E nt F → ∃ kids, Tree.node F kids ∈ s.seenOf nt ∧ kids.length = v.length ∧
     ∀ (j : Nat) (aj : Prog) (sj : UNT U), kids[j]? = some aj → v[j]? = some sj →
       AList.lookup none (s.succOf sj) = some aj
-  /-- (I2) what was ever pushed is in the heap or was popped -/
-  cover : ∀ p, p ∈ s.seenOf nt → p ∈ s.heapProgs nt ∨ Popped s nt p
-  /-- (I3) every argument position of every popped program has been treated -/
-  succs : ∀ (F : Sym) (args : List Prog) (v : List (UNT U)), Popped s nt (Tree.node F args) →
+  /-- (I2) what was ever pushed is in the heap, was popped, or was skipped as a rejected program -/
+  cover : ∀ p, p ∈ s.seenOf nt → p ∈ s.heapProgs nt ∨ Popped s nt p ∨ E.filter p = false
+  /-- (I3) every argument position of every program taken out of the heap has been treated -/
+  succs : ∀ (F : Sym) (args : List Prog) (v : List (UNT U)), Proc s nt (Tree.node F args) →
     AList.lookup (nt, Tree.node F args) s.keys = some v →
     ∀ (j : Nat) (aj : Prog) (sj : UNT U), args[j]? = some aj → v[j]? = some sj → rank sj < rank nt →
       (e = some (Tree.node F args) → i ≤ j) → SuccDone s nt F args j aj sj
@@ -325,7 +328,10 @@ theorem CInv.transfer {E : Env U π} {rank : UNT U → Nat} {s s' : St U π} {nt
     rw [hs.heap]
     exact h.cover p hp
   · intro F args v hp hkey j aj sj haj hsj hr hex
-    rw [hpop] at hp
+    have hp : Proc s nt (Tree.node F args) := by
+      unfold Proc St.heapProgs at hp ⊢
+      rw [hs.seen, hs.heap] at hp
+      exact hp
     rw [hs.keys] at hkey
     rcases h.succs F args v hp hkey j aj sj haj hsj hr hex with ⟨q, h1, h2⟩ | ⟨h1, h2, h3⟩
     · exact Or.inl ⟨q, hst _ _ _ h1, by rw [hs.seen]; exact h2⟩
